@@ -103,8 +103,9 @@ def unit_stepper(u, rec):
             # dimension-restricted class: constructing it in another dimension must be refused
             base = e.name.split("/")[0]
             if base in ("NavierStokesVorticity", "KolmogorovFlowVorticity", "NavierStokesVelocity", "KolmogorovFlowVelocity", "GeneralVorticityConvectionStepper"):
-                expect_value_error(rec, lambda D=D: e.build(ex, jnp, D, N, 2.5, 0.05, 0 if e.linear else 2), f"C20/dimension_guard/{base}",
-                                   "a dimension-restricted stepper was constructed in an unsupported dimension", D=D)
+                for order in ((0,) if e.linear else (0, 1, 2, 3, 4)):  # order 0 never evaluates the nonlinear term: the guard must not live only there
+                    expect_value_error(rec, lambda D=D, order=order: e.build(ex, jnp, D, N, 2.5, 0.05, order), f"C20/dimension_guard/{base}",
+                                       "a dimension-restricted stepper was constructed in an unsupported dimension", D=D, order=order)
             continue
         C = e.channels(D)
         st = e.build(ex, jnp, D, N, 2.5, 0.05, 0 if e.linear else 2)
